@@ -174,6 +174,12 @@ def definitions(tier, seed=0):
         if i % 3 == 2:
             fields.append(mk_field(f"Single{i}", f"Single{i}Struct", "1+", fields=[mk_field("Flag", "bool", "0+"), mk_field("Size", "uint16", "0+")],
                                    nullableVersions="1+" if i % 2 else None))
+        # tagged nested struct whose members all carry defaults (cf. FetchRequest v15 ReplicaState), ignorable or not
+        if flex_first is not None and i % 2 == 0:
+            tv = f"{flex_first}+"
+            fields.append(mk_field(f"Opt{i}State", f"Opt{i}StateStruct", tv, taggedVersions=tv, tag=next(used_tags),
+                                   ignorable=True if i % 4 == 0 else None,
+                                   fields=[mk_field("ReplicaRef", "int32", "0+", default="-1"), mk_field("Epoch", "int64", "0+", default="-1")]))
         # common struct
         common = []
         if i % 4 == 3:
